@@ -13,6 +13,7 @@
 #include "celeritas/global/Stepper.hh"
 #include "celeritas/user/ActionDiagnostic.hh"
 #include "celeritas/user/SimpleCalo.hh"
+#include "celeritas/user/DetectorSteps.hh"
 #include "celeritas/user/StepCollector.hh"
 #include "celeritas/user/StepData.hh"
 #include "celeritas/user/StepDiagnostic.hh"
@@ -133,8 +134,60 @@ class RecorderInterface final : public StepInterface
                         o.dir[p][c] = pt.dir[t][c];
             }
         }
+        // copy_steps (DetectorSteps.cc) is what detector-mode users call to compact the per-slot
+        // arrays into per-hit arrays: its output must be exactly the slots with a valid detector,
+        // in slot order, for every selected field, and empty for every unselected one
+        if (!d.detector.empty())
+        {
+            copy_steps(&dso_, st.steps);
+            ++copy_checked[s];
+            std::vector<size_type> hit;
+            for (std::size_t i = 0; i < n; ++i)
+                if (d.detector[TrackSlotId{size_type(i)}])
+                    hit.push_back(size_type(i));
+            auto cmp = [&](auto const& dst, auto const& src, char const* name) {
+                if (!copy_mismatch[s].empty())
+                    return;
+                if (src.empty())
+                {
+                    if (!dst.empty())
+                        copy_mismatch[s] = std::string(name) + ":not-empty-for-unselected-field";
+                    return;
+                }
+                if (dst.size() != hit.size())
+                {
+                    copy_mismatch[s] = std::string(name) + ":size";
+                    return;
+                }
+                for (std::size_t k = 0; k < hit.size(); ++k)
+                    if (!(dst[k] == src[TrackSlotId{hit[k]}]))
+                    {
+                        copy_mismatch[s] = std::string(name) + ":value";
+                        return;
+                    }
+            };
+            cmp(dso_.detector, d.detector, "detector");
+            cmp(dso_.track_id, d.track_id, "track_id");
+            cmp(dso_.event_id, d.event_id, "event_id");
+            cmp(dso_.parent_id, d.parent_id, "parent_id");
+            cmp(dso_.track_step_count, d.track_step_count, "track_step_count");
+            cmp(dso_.step_length, d.step_length, "step_length");
+            cmp(dso_.particle, d.particle, "particle");
+            cmp(dso_.energy_deposition, d.energy_deposition, "energy_deposition");
+            for (auto sp : {StepPoint::pre, StepPoint::post})
+            {
+                char const* pn = sp == StepPoint::pre ? "pre." : "post.";
+                cmp(dso_.points[sp].time, d.points[sp].time, (std::string(pn) + "time").c_str());
+                cmp(dso_.points[sp].pos, d.points[sp].pos, (std::string(pn) + "pos").c_str());
+                cmp(dso_.points[sp].dir, d.points[sp].dir, (std::string(pn) + "dir").c_str());
+                cmp(dso_.points[sp].energy, d.points[sp].energy, (std::string(pn) + "energy").c_str());
+            }
+        }
     }
 
+    DetectorStepOutput dso_;
+    std::vector<std::string> copy_mismatch = std::vector<std::string>(16);
+    std::vector<std::uint64_t> copy_checked = std::vector<std::uint64_t>(16, 0);
     StepSelection sel_;
     Filters filters_;
     // per stream
@@ -332,9 +385,17 @@ int run_c17(verif::Args const& args, verif::Report& rep)
             auto check_iteration = [&](IterRec const& it) {
                 for (std::size_t ri = 0; ri < recs.size(); ++ri)
                 {
-                    auto const& R = *recs[ri];
+                    auto& R = *recs[ri];
                     auto const& out = R.last[0];
                     auto const& sz = R.sizes[0];
+                    if (!R.copy_mismatch[0].empty())
+                    {
+                        std::string what = R.copy_mismatch[0];
+                        R.copy_mismatch[0].clear();
+                        fail("copy-steps/" + what.substr(what.find(':') + 1),
+                             "copy_steps() output differs from the per-slot arrays restricted to slots with a detector",
+                             {{"field", what.substr(0, what.find(':'))}});
+                    }
                     if (out.size() != it.slots.size())
                     {
                         fail("callback/size", "callback arrays do not have one entry per track slot",
